@@ -494,3 +494,53 @@ func TestC15(t *testing.T) {
 			return res.C["max-nonempty-levels"] >= 3 && res.C["max-l0-sublevels"] >= 2 && res.C["ingests"] > 0 && res.C["levelchecks"] > 0
 		}, nil)
 }
+
+var profFiles = Profile{
+	Name: "files", MinSteps: 15, MaxSteps: 60, IterOpsMax: 4, MaxIters: 3, MaxSnaps: 2, MaxEFOS: 1, BigValues: true,
+	W: map[string]int{"write": 30, "batch": 10, "flush": 8, "compact": 7, "wait": 12, "ingest": 4, "ingestexcise": 2, "excise": 2, "restart": 3,
+		"iternew": 6, "iterop": 8, "iterclose": 6, "snap": 3, "snapread": 3, "snapclose": 3, "efos": 1, "efosread": 2, "efosclose": 1},
+	OpW: opWDefault,
+	Opt: func(t *rapid.T, o *OptPlan) {
+		o.FilesCheck = true
+		o.MemTableSize = rapid.SampledFrom([]int{4 << 10, 8 << 10}).Draw(t, "c39mem")
+	},
+}
+
+func TestC39(t *testing.T) {
+	dbCheck(t, "C39", profFiles,
+		"histories with iterators, snapshots and EFOS held across flushes, compactions, excises and restarts; at every quiescent point ('wait' / after restart; synctest.Wait drains the obsolete-file cleaner) the store directory is compared with the current version: (live) every referenced table backing and blob file exists, and all reads through held readers keep succeeding (C04 oracle); (dead) when no reader is open: no table/blob file outside the version remains, MANIFESTs <= 1+NumPrevManifest, exactly one OPTIONS, WAL files within the recycling bound; also after Close+reopen. "+
+			"non-trivial = a table became a zombie (pinned by a reader) during the case and a dead-files check ran after the readers were closed; distinct = hash of plan JSON",
+		150, 1000,
+		func(res Result, ls []string) bool {
+			return hasLabel(ls, "zombie-tables") && res.C["files-dead-checks"] > 0 && hasLabel(ls, "tables-deleted")
+		}, nil)
+}
+
+var profClose = Profile{
+	Name: "close", MinSteps: 10, MaxSteps: 50, IterOpsMax: 4, MaxIters: 3, MaxSnaps: 2, MaxBatches: 2, MaxEFOS: 1,
+	W: map[string]int{"write": 30, "batch": 10, "bigbatch": 1, "flush": 6, "compact": 5, "wait": 3, "ingest": 4, "excise": 1, "restart": 2, "get": 4, "scan": 4,
+		"iternew": 6, "iterop": 8, "iterclose": 3, "snap": 3, "snapread": 3, "snapclose": 2, "ibnew": 2, "ibop": 4, "ibcommit": 1, "ibclose": 1, "efos": 1, "efosread": 1, "efosclose": 1},
+	OpW: opWDefault,
+}
+
+func TestC47(t *testing.T) {
+	InBubble = true
+	evid.Run(t, evid.Spec[Plan]{
+		ID: "C47", Level: "exploration", Bubble: true,
+		Rule: "arbitrary histories with iterators, snapshots, EFOS and indexed batches left open at the end; the harness closes every handle and then the DB on a file system that counts open handles, with an explicit shared block cache: Close()==nil; open-file count returns to 0; the number of goroutines returns to the pre-Open value (after synctest.Wait); after cache.Unref the manually managed memory (block cache data and map, memtables; cache entries are pooled and excluded) returns to the pre-Open baseline; the directory reopens to the model state and closes cleanly again. Negative control (once per run): Close with a leaked iterator returns an error. " +
+			"non-trivial = the history produced a compaction and used at least one snapshot and one iterator that were still open when the harness started closing; distinct = hash of plan JSON",
+		Assumptions: commonAssumptions,
+		Gen:         func(t *rapid.T) Plan { return Generate(t, profClose) },
+		Exec: func(p Plan) (evid.Outcome, error) {
+			res, err := RunPlanClose(p)
+			out := res.Outcome()
+			out.NonTrivial = anyLabel(out.Labels, "compaction=") && res.C["snapshots"] > 0 && res.C["iters"] > 0 && res.C["close-checks"] > 0
+			return out, err
+		},
+		Quick: 200, Thorough: 1500,
+		Sample: func(p Plan) any { return p.Summary() },
+	})
+	if err := leakedIteratorControl(); err != nil {
+		t.Errorf("VIOLATION-CONTROL: %v", err)
+	}
+}
